@@ -10,6 +10,7 @@ import (
 
 	"github.com/MixinNetwork/mixin/common"
 	"github.com/MixinNetwork/mixin/crypto"
+	"github.com/MixinNetwork/mixin/storage"
 	"github.com/MixinNetwork/mixin/verifgen"
 	"github.com/MixinNetwork/mixin/verifkit"
 )
@@ -375,6 +376,76 @@ func TestVerif_C28(t *testing.T) {
 		probes("cancel", f.net.NodeIds[1+rng.Intn(len(f.net.NodeIds)-1)], as.Timestamp, ctx.AsVersioned(), pool)
 		prebuilt = as
 		finalizeOp("node-accept", as.NodeId, atx, as.Timestamp)
+	}
+	// Third history: the process stops between the durable write of a mint snapshot and the separate write of the
+	// consensus marker, another chain's snapshot lands in between, and the node starts again. The next operation the
+	// restarted node builds, and the ones it accepts, must continue the chain at the mint.
+	{
+		dir := t.TempDir()
+		var px *verifProxy
+		fc := verifNewFeedAt(t, fmt.Sprintf("c28c-%d", r.Seed), 7, rng, dir, func(bs *storage.BadgerStore) storage.Store { px = newVerifProxy(bs); return px }, verifMintEpochUnix(), 1707)
+		wc := verifgen.NewWallet(fc.net.Label, rng, &fc.net.Custodian, 3)
+		mc, mtx, mts, err := fc.buildMint(wc)
+		var ms *common.Snapshot
+		if err == nil {
+			ms, err = fc.nextSnapshot(mc, []crypto.Hash{mtx.PayloadHash()}, mts)
+		}
+		if err == nil {
+			_, err = fc.sign(ms, 0)
+		}
+		if err != nil {
+			r.Count("crash_history_mint_not_buildable", 1)
+			t.Logf("crash history: %v", err)
+			fc.stop()
+		} else {
+			before, _ := fc.node.persistStore.ReadLastConsensusSnapshot()
+			px.cutBeforeMethod = "WriteConsensusSnapshot"
+			d := fc.deliver(ms, []*common.VersionedTransaction{mtx})
+			_, crashed := d.PanicVal.(verifCrash)
+			net, cursor := fc.net, fc.cursor
+			fc.stop()
+			if !d.Panicked || !crashed {
+				r.Count("crash_history_stop_not_reached", 1)
+			} else if f2, err := verifFeedOn(t, net, rng, dir, nil); err != nil {
+				r.Count("crash_history_restart_failed_(C22_territory)", 1)
+			} else {
+				f2.cursor = cursor
+				r.Eval()
+				r.Count("crash_histories", 1)
+				if st, _ := f2.node.persistStore.ReadSnapshot(ms.Hash); st == nil {
+					r.Count("crash_history_mint_not_durable", 1)
+				} else {
+					r.Nontrivial("crash-history|" + ms.Hash.String())
+					// what the restarted node builds next
+					if pc, ptx, pts, _, err := f2.buildPledge(wc); err != nil {
+						r.Count("crash_history_pledge_not_buildable", 1)
+						t.Logf("crash history pledge: %v", err)
+					} else {
+						if len(ptx.References) < 1 || ptx.References[0] != mtx.PayloadHash() {
+							r.Violation("C28|history|operation-built-on-an-older-predecessor-after-restart",
+								"after a stop between the mint snapshot and its consensus marker and a restart, the next consensus operation the node builds references the operation before the mint", nil)
+						}
+						// and what it accepts: the same pledge retargeted to the operation before the mint
+						if before != nil {
+							stale := vC28Retarget(ptx, []crypto.Hash{before.Transactions[0]})
+							sn := &common.Snapshot{Version: common.SnapshotVersionCommonEncoding, NodeId: pc, RoundNumber: 3, Timestamp: pts, Transactions: []crypto.Hash{stale.PayloadHash()}}
+							sn.Hash = sn.PayloadHash()
+							for _, finalized := range []bool{false, true} {
+								var verr error
+								p, _, _ := verifkit.Guard(func() {
+									verr = f2.node.validateKernelSnapshot(sn, map[crypto.Hash]*common.VersionedTransaction{stale.PayloadHash(): stale}, finalized)
+								})
+								r.Eval()
+								if !p && verr == nil {
+									r.Violation("C28|lone|wrong-predecessor-reference|after-restart", fmt.Sprintf("after a stop between the mint snapshot and its consensus marker and a restart, an operation referencing the operation before the mint passed (finalized=%v)", finalized), nil)
+								}
+							}
+						}
+					}
+				}
+				f2.stop()
+			}
+		}
 	}
 	// Batch rule on the main network id, before and after the consensus-reference activation time (the kernel
 	// relaxes the reference rule for historical main-network snapshots; the batch rule has no such exemption).
